@@ -215,27 +215,54 @@ pub fn score_c<const C: u64>(g: &V) -> V {
 /// Canonical form of a (nested) operator error and the `{:?}` text it must have.  The combinators'
 /// error types are not nameable from outside ec-core, so the structure is read through the public
 /// surface: `Display` (which combinator, which side / element) and `Error::source` (the inner error).
+/// errors whose message does not say which combinator they come from (`anyFirst(..)`) are compared with the model's
+/// `thenFirst(..)` / `andFirst(..)` modulo the combinator's name
+pub fn same_err_text(real: &str, model: &str) -> bool {
+    if real == model { return true; }
+    if !real.contains("anyFirst(") && !real.contains("anySecond(") { return false; }
+    let gen = |s: &str| s.replace("thenFirst(", "anyFirst(").replace("andFirst(", "anyFirst(").replace("thenSecond(", "anySecond(").replace("andSecond(", "anySecond(");
+    gen(real) == gen(model)
+}
+
 pub fn canon_err(e: &(dyn std::error::Error + 'static)) -> (String, String) {
     if let Some(p) = e.downcast_ref::<ProbeErr>() {
         return (format!("own({},{})", p.id, p.code), format!("{p:?}"));
     }
+    // The combinators' error types live in private modules: what a caller can observe is the Display text, the
+    // Debug text and the source() chain.  Which part / element failed is read off BOTH texts, tolerantly (variant
+    // name of the derive; the words first / second / an element number in the message) - a rewording that still
+    // names the right part is fine, a text that names the *other* part is a contradiction and stays visible.
     let text = e.to_string();
+    let low = text.to_lowercase();
+    let dbg = format!("{e:?}");
     let (inner, inner_dbg) = match e.source() {
         Some(s) => canon_err(s),
         None => ("?".into(), "?".into()),
     };
-    let first = text.contains("first passed operator");
-    let second = text.contains("second passed operator");
-    if text.contains("`Then<") && (first || second) {
-        let (c, d) = if first { ("thenFirst", "First") } else { ("thenSecond", "Second") };
-        (format!("{c}({inner})"), format!("{d}({inner_dbg})"))
-    } else if text.contains("`And<") && (first || second) {
-        let (c, d) = if first { ("andFirst", "First") } else { ("andSecond", "Second") };
-        (format!("{c}({inner})"), format!("{d}({inner_dbg})"))
-    } else if let Some(pos) = text.find("-th element") {
-        let digits: String = text[..pos].chars().rev().take_while(|c| c.is_ascii_digit()).collect::<String>().chars().rev().collect();
-        (format!("map({inner},{digits})"), format!("MapError({inner_dbg}, {digits})"))
-    } else {
-        (format!("unknown[{text}]({inner})"), format!("?{inner_dbg}"))
+    let d_first = dbg.starts_with("First(");
+    let d_second = dbg.starts_with("Second(");
+    let d_map = dbg.starts_with("MapError(");
+    let t_first = (low.contains("first") || low.contains("1st")) && !(low.contains("second") || low.contains("2nd"));
+    let t_second = (low.contains("second") || low.contains("2nd")) && !(low.contains("first") || low.contains("1st"));
+    let t_index: Option<String> = text.find("-th element").map(|pos| text[..pos].chars().rev().take_while(|c| c.is_ascii_digit()).collect::<String>().chars().rev().collect::<String>())
+        .filter(|d| !d.is_empty())
+        .or_else(|| if low.contains("element") { let d: String = text.chars().skip_while(|c| !c.is_ascii_digit()).take_while(|c| c.is_ascii_digit()).collect(); if d.is_empty() { None } else { Some(d) } } else { None });
+    let d_index: Option<String> = if d_map { dbg.rsplit(", ").next().map(|t| t.trim_end_matches(')').to_string()).filter(|t| !t.is_empty() && t.chars().all(|c| c.is_ascii_digit())) } else { None };
+    if d_map || (t_index.is_some() && !d_first && !d_second) {
+        let idx = match (&d_index, &t_index) {
+            (Some(a), Some(b)) if a != b => format!("CONTRADICTION[debug says element {a}, display says element {b}]"),
+            (Some(a), _) => a.clone(),
+            (None, Some(b)) => b.clone(),
+            (None, None) => "?".into(),
+        };
+        return (format!("map({inner},{idx})"), format!("MapError({inner_dbg}, {idx})"));
     }
+    let first = if d_first || d_second { Some(d_first) } else if t_first || t_second { Some(t_first) } else { None };
+    let Some(first) = first else { return (format!("unknown[{text}]({inner})"), format!("?{inner_dbg}")) };
+    if (d_first && t_second) || (d_second && t_first) {
+        return (format!("CONTRADICTION[debug says {}, display says the other part: {text}]({inner})", if d_first { "First" } else { "Second" }), format!("?{inner_dbg}"));
+    }
+    let comb = if low.contains("then<") { "then" } else if low.contains("and<") { "and" } else { "any" };
+    let (c, d) = if first { (format!("{comb}First"), "First") } else { (format!("{comb}Second"), "Second") };
+    (format!("{c}({inner})"), format!("{d}({inner_dbg})"))
 }
